@@ -81,6 +81,9 @@ class FinishedPdu(AbstractFileDirectiveBase):
             self.fault_location = self._params.fault_location
         if params.file_store_responses is not None:
             self.file_store_responses = self._params.file_store_responses
+        else:
+            # No setter was called for the responses, the length still has to be calculated
+            self._calculate_directive_field_len()
 
     @classmethod
     def success_pdu(cls, pdu_conf: PduConfig) -> FinishedPdu:
